@@ -20,8 +20,8 @@ def rand_params(rng: random.Random, cls: str, small: bool = True) -> dict:
         w = rng.uniform(0.3, 2.0)
         mc = rng.choice([1, 2, 3, 5, 9, 20])
         return {"warning_level": w, "drift_level": w + rng.uniform(0.1, 1.5), "min_num_instances": mn,
-                "min_concept_size": mc, "max_concept_size": rng.choice([mc, mc + 3, 15, 40, 100]),
-                "max_num_instances_warning": rng.choice([0, 1, 2, 4, 10])}
+                "min_concept_size": mc, "max_concept_size": rng.choice([mc, mc + 3, 15, 40, 100, -1, 0]),
+                "max_num_instances_warning": rng.choice([0, 1, 2, 4, 10, -1])}
     if cls == "EDDM":
         a = rng.uniform(0.5, 1.0)
         return {"alpha": a, "beta": a * rng.uniform(0.5, 0.98), "level": rng.uniform(0.5, 3.0),
